@@ -139,7 +139,10 @@ Definition C06_period_independent_stmt : Prop :=
      erase_st st1 = erase_st st2 -> erase_ops ops1 = erase_ops ops2 ->
      run_from ds jump st1 ops1 = run_from ds jump st2 ops2) /\
   (forall s1 s2, sc_jump s1 = sc_jump s2 -> sc_allocs s1 = sc_allocs s2 -> erase_ops (sc_ops s1) = erase_ops (sc_ops s2) ->
-     run s1 = run s2 /\ (forall obs, spec s1 obs = spec s2 obs)).
+     run s1 = run s2 /\ (forall obs, spec s1 obs = spec s2 obs)) /\
+  (* one operation: what a release (or any other non-switching operation) shows does not depend on the period and the stage it finds *)
+  (forall ds jump st per stg o, env_op o = false ->
+     snd (step ds jump (with_stage (with_period st per) stg) o) = snd (step ds jump st o)).
 
 Lemma spec_erase ds : forall ops ss obs, spec_from ds ss ops obs = spec_from ds ss (erase_ops ops) obs.
 Proof.
@@ -152,11 +155,16 @@ Qed.
 
 Lemma period_independent : C06_period_independent_stmt.
 Proof.
-  split.
+  split; [|split].
   - intros ds jump st1 st2 ops1 ops2 Es Eo. rewrite (run_erase ds jump ops1 st1), (run_erase ds jump ops2 st2), Es, Eo. reflexivity.
   - intros [j1 d1 o1] [j2 d2 o2]. cbn [sc_jump sc_allocs sc_ops]. intros -> -> Eo. split.
     + unfold run. cbn [sc_jump sc_allocs sc_ops]. rewrite (run_erase d2 j2 o1), (run_erase d2 j2 o2), Eo. reflexivity.
     + intros obs. unfold spec. cbn [sc_allocs sc_ops]. rewrite (spec_erase d2 o1), (spec_erase d2 o2), Eo. reflexivity.
+  - intros ds jump st per stg o Eo.
+    pose proof (step_erase ds jump (with_stage (with_period st per) stg) o Eo) as H1.
+    pose proof (step_erase ds jump st o Eo) as H2.
+    change (erase_st (with_stage (with_period st per) stg)) with (erase_st st) in H1. rewrite H2 in H1.
+    inversion H1. reflexivity.
 Qed.
 
 (* ------------------------------------------------------------------ the pointed form: allocate in one period, release in another *)
